@@ -20,6 +20,11 @@ CHECKS = {
         "refusal changes nothing, realloc only for the last block and in place, free of the last block reclaims. Tie: per-step comparison of returned offset, last and top "
         "with the implementation on unaligned buffers, huge sizes and overflowing calloc products, plus the harness's own spec oracle.",
    note="calloc's zeroing (memset) and the buffer being a real object (base+capacity < 2^64) are assumed; alignments in K divide 65536.", ref="§5 C09"),
+ "C05": dict(cat="translation_validation", tech="Lean 4 executable model validated against the implementation per call (white-box: both heads, open transaction); FIFO-refinement theorems in progress",
+   text="The ring's single-threaded value semantics (two-piece copies, masked 32-bit indices, transactions) is an executable Lean model; every call's return value, delivered bytes, "
+        "both heads and the transaction record are compared with the implementation over histories whose request sizes cluster at the fits/does-not-fit boundary for sizes 1..130 and 2^k±1. "
+        "The refinement theorems to the byte FIFO are being added; until they build this is a validated model, not a proof.",
+   note="memcpy modelled as list copy; sizes 0 and > 2^31 are outside the property.", ref="§5 C05"),
 }
 
 NOT_YET = "check not built yet in this revision (framework under construction; see DESIGN.md §8)"
